@@ -105,6 +105,10 @@ SIBLINGS = {
     'C01-r3-2': ['C01', 'C02'],   # an unrenamed identifier collides with an earlier generated name: non-injective renaming (C02)
     'C08-r4-3': ['C08', 'C14'],
     'C19-r5-2': ['C19', 'C20'],
+    'C03-r7-1': ['C03', 'C06'],   # TokString.code re-spells byte 14/15 before a digit wrongly: the echo writer's spelling is C06's subject
+    'C03-r6-2': ['C03', 'C06'],
+    'C09-r7-3': ['C09', 'C08'],   # the parser rejects a label name reused in sibling blocks: acceptance of valid programs is C08's subject
+    'C19-r7-3': ['C19', 'C20'],   # #include of a cart drops that cart's leading comments: the spliced lines are C20's subject
     'C08-r6-3': ['C08', 'C14'],   # default AST-walker handlers missing for keyed table fields: the parser's tree is intact, build's RequireWalker crashes (C14)   # the change is in #include processing (a commented-out include is expanded): C20's "every other line unchanged"   # the AST *walker* skips if-blocks (the parser's tree is intact): require() inside an if is not packaged (C14)
 }
 
@@ -116,6 +120,11 @@ NOT_A_VIOLATION = {
                 'PICO-8 lexer rejects as a malformed number - not a program of the dialect',
     'C16-r5-3': 'only affects a .p8 file in which a section header occurs twice; neither PICO-8 nor picotool writes such a file and the format '
                 'description does not say what it means, so it is not one of the "such files" of the statement',
+    'C07-r7-2': 'same lexer change as C09-r4-3 / C08-r5-3 (hex/binary numeral directly followed by `..`): not a program of the dialect',
+    'C08-r7-2': 'only affects a compound assignment whose right-hand side continues on the next line; in the dialect of DESIGN.md Appendix A '
+                '(PICO-8\'s line-wise expansion of `a += b`) a compound assignment ends with its line, so such a program is outside the domain',
+    'C20-r7-1': 'only affects directive lines with other text after the name (`#include x.lua // note`); the statement speaks of `#include NAME` '
+                'lines and does not say what trailing text means',
     'C14-r4-2': 'a require() inside a stripped game-loop function is followed: if its file is missing the build fails, which the statement '
                 'prescribes for a require() whose file cannot be found; if it exists one more required name is defined once - neither '
                 'contradicts the statement',
